@@ -51,7 +51,7 @@ Proof. vm_compute. split; reflexivity. Qed.
 (* A SURFACE PROGRAM (Proofs/Surface.v) is what is written, token by token: result and command names, argument names, values
    that are quoted strings (either quote character, any escapes: given by their lexeme), integers and decimals in any
    spelling the token rules accept, unquoted identifiers, lists at any nesting with or without a trailing comma,
-   dictionaries of "key": value pairs, argument lists with or without a trailing comma, commands in the `Result = Command(...)` form or
+   dictionaries of key: value pairs with quoted or unquoted keys, argument lists with or without a trailing comma, commands in the `Result = Command(...)` form or
    in the EEMS 2.0 form `COMMAND(...)` (which makes the program version 2).  Its DENOTATION (xden / xaexp) is
    what it means: decoded strings, integer values, lists, dictionaries -- no layout, no quote style, no commas.
 
@@ -63,13 +63,13 @@ Proof. vm_compute. split; reflexivity. Qed.
    whole when followed by a gap or by a token it cannot run into (per-rule lemmas, Proofs/LexSerial.v, SurfaceLayout.v);
    the LALR automaton of the regenerated tables accepts the token stream and the semantic actions compute the denotation
    (simulation lemmas per syntactic category, Proofs/Surface.v). *)
-Theorem C10_layout_irrelevance : forall fs p gaps final, p <> [] -> surface_okb p gaps final = true ->
+Theorem C10_layout_irrelevance : forall fs p gaps final, p <> [] -> surface_okb fs p gaps final = true ->
   exists pp, parse fs (lay (combine gaps (tkx_program p)) final) = POk pp /\ pp_version pp = xversion p /\ Forall2 xcmd_matches p (pp_cmds pp).
 Proof. exact surface_layout_b. Qed.
 (* hence two renderings with the same denotation -- differing in gaps, quote characters, escapes, spelling of numerals,
    trailing commas -- parse to the same program, line numbers apart *)
 Theorem C10_same_denotation : forall fs p1 p2 g1 g2 f1 f2,
-  p1 <> [] -> surface_okb p1 g1 f1 = true -> p2 <> [] -> surface_okb p2 g2 f2 = true -> map xcmd_den p1 = map xcmd_den p2 ->
+  p1 <> [] -> surface_okb fs p1 g1 f1 = true -> p2 <> [] -> surface_okb fs p2 g2 f2 = true -> map xcmd_den p1 = map xcmd_den p2 ->
   exists pp1 pp2, parse fs (lay (combine g1 (tkx_program p1)) f1) = POk pp1 /\ parse fs (lay (combine g2 (tkx_program p2)) f2) = POk pp2 /\
                   map erase_cmd (pp_cmds pp1) = map erase_cmd (pp_cmds pp2) /\ pp_version pp1 = pp_version pp2.
 Proof. intros fs p1 p2 g1 g2 f1 f2 A1 A2 B1 B2 Hd.
@@ -86,13 +86,13 @@ Proof. exact layout_irrelevant. Qed.
 Definition ex_surface : list xcmd :=
   [ {| xc_result := Some (rx "A"); xc_name := rx "Cmd"; xc_trail := true;
        xc_args := [ (rx "P", XAVal (XList [XLeaf (XI (rx "+1")); XLeaf (XS (rx "'x y'")); XList [XLeaf (XF (rx "2.5"))] true] true));
-                    (rx "Q", XADict (rx """k\x41""", XW (rx "v")) [] true) ] |} ].
+                    (rx "Q", XADict (KQ (rx """k\x41"""), PVLeaf (XW (rx "v"))) [] true) ] |} ].
 Definition ex_gaps : list text :=
   let sp := [32%N] in
   [ []; sp; sp; []; sp; sp; sp; []; []; sp; []; sp; []; []; []; []; sp; [];
     [32; 32; 35; 32; 110; 111; 116; 101; 13; 10; 32; 32]%N; sp; sp; []; []; sp; []; []; []; sp ].
 Definition ex_final : text := [10; 35; 32; 101; 110; 100]%N.
-Example C10_layout_example : ex_surface <> [] /\ surface_okb ex_surface ex_gaps ex_final = true /\
+Example C10_layout_example : ex_surface <> [] /\ surface_okb (fun _ => None) ex_surface ex_gaps ex_final = true /\
   match parse (fun _ => None) (lay (combine ex_gaps (tkx_program ex_surface)) ex_final) with
   | POk {| pp_cmds := [ {| pc_args := [a1; a2] |} ] |} =>
       erase_e (pa_value a1) = PE (PList [PE (PInt 1%Z) 0%N; PE (PStr (rx "x y")) 0%N; PE (PList [PE (PFloat (rx "2.5")) 0%N]) 0%N]) 0%N /\
@@ -100,9 +100,23 @@ Example C10_layout_example : ex_surface <> [] /\ surface_okb ex_surface ex_gaps 
   | _ => False end.
 Proof. split; [discriminate|]. split; vm_compute; [reflexivity | split; reflexivity]. Qed.
 
-(* NOT proved: the same for the forms outside the surface family -- unquoted multi-word text and text with colons
-   (plain_string / permissive_plain_string productions, PLAIN_STRING tokens), dictionaries with unquoted keys or list
-   values.  These are covered by the correspondence only: random programs x random layouts,
+(* unquoted text: a path in two tokens, words with blanks between them (the blanks are lost, as the code does), a numeral inside
+   (re-printed), an unquoted dictionary key:   B = Cmd(P = data/in.csv, Q = This is 1 string., M = [k x: some text]) *)
+Definition ex_words : list xcmd :=
+  [ {| xc_result := Some (rx "B"); xc_name := rx "Cmd"; xc_trail := false;
+       xc_args := [ (rx "P", XAVal (XWords [WW (rx "data"); WP (rx "/in.csv")]));
+                    (rx "Q", XAVal (XWords [WW (rx "This"); WW (rx "is"); WI (rx "1"); WW (rx "string"); WP (rx ".")]));
+                    (rx "M", XADict (KW [WW (rx "k"); WW (rx "x")], PVWords [WW (rx "some"); WW (rx "text")]) [] false) ] |} ].
+Definition ex_words_gaps : list text :=
+  let sp := [32%N] in [ []; sp; sp; []; []; sp; sp; []; []; sp; sp; sp; sp; sp; sp; []; []; sp; sp; sp; []; sp; []; sp; sp; []; [] ].
+Example C10_unquoted_text_example : surface_okb (fun _ => None) ex_words ex_words_gaps [] = true /\
+  lay (combine ex_words_gaps (tkx_program ex_words)) [] = rx "B = Cmd(P = data/in.csv, Q = This is 1 string., M = [k x: some text])" /\
+  map xcmd_den ex_words = [ (Some (rx "B"), rx "Cmd", [ (rx "P", PE (PStr (rx "data/in.csv")) 0%N); (rx "Q", PE (PStr (rx "Thisis1string.")) 0%N);
+                                                      (rx "M", PE (PDict [(rx "kx", PE (PStr (rx "sometext")) 0%N)]) 0%N) ]) ].
+Proof. vm_compute. repeat split; reflexivity. Qed.
+
+(* NOT proved: the same for the forms outside the surface family -- unquoted text with colons (the
+   permissive_plain_string COLON production), dictionaries with list values, mixed lists.  These are covered by the correspondence only: random programs x random layouts,
    single-token corruptions, token soups, unquoted multi-word text, all compared with the real parser's result including
    line numbers; the evidence counts how many of the generated renderings are instances of C10_layout_irrelevance (Coq
    re-assembles each text from its decomposition and evaluates surface_okb).  Recorded limitation of the code itself
